@@ -36,6 +36,9 @@ import (
 //verif:filestub (*github.com/lianxiangcloud/linkchain/vm/evm.Memory).GetPtr => stub_c20s_getptr
 //verif:filestub github.com/lianxiangcloud/linkchain/libs/common.RightPadBytes => stub_c20s_rightpad
 //verif:filestub github.com/lianxiangcloud/linkchain/libs/math.Exp => stub_c20s_exp
+//verif:filestub github.com/lianxiangcloud/linkchain/types.CalNewAmountGas => stub_c20s_amountgas
+//verif:filestub github.com/lianxiangcloud/linkchain/libs/common.BigToAddress => stub_c20s_bigtoaddress
+//verif:filestub github.com/lianxiangcloud/linkchain/libs/common.BigToHash => stub_c20s_bigtohash
 //verif:noop github.com/lianxiangcloud/linkchain/types.GenBalanceRecord
 
 var (
@@ -51,7 +54,7 @@ var (
 
 func c20sFrame(evm *EVM, c types.ContractRef, gas uint64) ([]byte, uint64, error) {
 	c20sFrames++
-	verifAssert(gas <= c20sGas0+cfg.CallStipend, "nothing-is-forwarded-that-the-frame-did-not-have")
+	verifAssert(gas <= c20sGas0 || gas-c20sGas0 <= cfg.CallStipend, "nothing-is-forwarded-that-the-frame-did-not-have")
 	c20sForwarded += gas
 	back := verifNondetUint64()
 	verifAssume(back <= gas)
@@ -187,6 +190,21 @@ func stub_c20s_rightpad(slice []byte, l int) []byte {
 	return slice
 }
 
+// types.CalNewAmountGas (the value-transfer fee: 257-bit divisions by the coin unit, then a clamp): any
+// fee inside the clamp - that the fee of a value transfer is at least MinGasLimit > 0 is what opCall's
+// fee bookkeeping relies on
+func stub_c20s_amountgas(value *big.Int, feeRule int64) uint64 {
+	f := verifNondetUint64()
+	verifAssume(f >= uint64(types.MinGasLimit) && (types.MaxGasLimit == 0 || f <= uint64(types.MaxGasLimit)))
+	return f
+}
+
+// stack word -> address / storage key: the minimal big-endian bytes of the word, left-padded or cut
+// (33 length cases per conversion); the world behind the StateDB interface answers arbitrarily for
+// every account and slot, so which one is named does not matter here
+func stub_c20s_bigtoaddress(b *big.Int) common.Address { return common.Address{verifNondetByte()} }
+func stub_c20s_bigtohash(b *big.Int) common.Hash       { return common.Hash{verifNondetByte()} }
+
 // libs/math.Exp loops over the machine words of the exponent; its value does not matter to metering
 func stub_c20s_exp(base, exponent *big.Int) *big.Int {
 	r := new(big.Int).SetBytes(verifNondetBytes(32))
@@ -308,6 +326,9 @@ func H_C20_every_instruction_is_metered_and_total() {
 	if verifThorough() {
 		depth = verifCase(8)
 	} else {
+		if c20sIsFrameOp(op) {
+			return // the six frame-starting instructions (7 symbolic operands, hundreds of paths each): thorough tier
+		}
 		depth = c20sNeed(op) - verifCase(2)
 		if depth < 0 {
 			return
@@ -333,4 +354,5 @@ func c20sIndex(ops []OpCode, op OpCode) int {
 	}
 	return 0
 }
+
 
